@@ -78,6 +78,14 @@ func (f *failoverStatus) report(ctx context.Context, witness string) *status.Sta
 	return nil
 }
 
+// removeWitness forgets a report made by the given witness, e.g. because it
+// is no longer eligible to be a witness.
+func (f *failoverStatus) removeWitness(witness string) {
+	f.mu.Lock()
+	delete(f.witnesses, witness)
+	f.mu.Unlock()
+}
+
 // cancel stops the expiration timer, if there is one.
 func (f *failoverStatus) cancel() {
 	f.mu.Lock()
